@@ -370,6 +370,42 @@ void op_offset(tup<N> const &size)
 }
 
 // ------------------------------------------------------------------ at_optional / in_range
+// the probe positions around a grid: components 0 .. extent+2 and the two largest values of the
+// (unsigned) size type
+template <std::size_t N, typename F>
+void for_probes(tup<N> const &gsize, F const &f)
+{
+  using pos = typename grid_t<N>::pos;
+  tup<N> hi;
+  for (std::size_t i = 0; i < N; ++i) hi[i] = gsize[i] + 4;
+  constexpr std::size_t mx = std::numeric_limits<std::size_t>::max();
+  for_box<N>(fill_tup<N>(0), hi, [&](tup<N> const &c) {
+    pos p = mkvec<pos>(c);
+    for (std::size_t i = 0; i < N; ++i)
+      if (c[i] > gsize[i] + 2) p.get_unsafe(i) = mx - static_cast<std::size_t>(gsize[i] + 4 - c[i]);
+    f(p);
+  });
+}
+
+template <std::size_t N>
+void op_in_range(tup<N> const &gsize, gen_t<N> const &g)
+{
+  using G = grid_t<N>;
+  using pos = typename G::pos;
+  vj::begin_call(vj::J().kv("f", "in_range").kv("N", static_cast<ll>(N)).raw("gsize", js<N>(gsize)).raw("gen", js<N + 1>(g)).s);
+  G const gr = make_grid<N>(gsize, g);
+  std::string ps = "[";
+  std::vector<ll> inr, ird;
+  for_probes<N>(gsize, [&](pos const &p) {
+    if (!inr.empty()) ps += ',';
+    ps += jv<N>(p);
+    inr.push_back(grid::in_range(gr, p) ? 1 : 0);
+    ird.push_back(grid::in_range_dim(gr.size(), p) ? 1 : 0);
+  });
+  ps += "]";
+  vj::end_call(",\"ps\":" + ps + ",\"inr\":" + jl(inr) + ",\"ird\":" + jl(ird) + "}");
+}
+
 template <std::size_t N>
 void op_at(tup<N> const &gsize, gen_t<N> const &g)
 {
@@ -379,15 +415,8 @@ void op_at(tup<N> const &gsize, gen_t<N> const &g)
   G gr = make_grid<N>(gsize, g);
   G const &cgr = gr;
   std::string ps = "[";
-  std::vector<ll> some, val, somec, valc, inr, ird;
-  // components 0 .. extent+2 and the two largest values of the (unsigned) size type
-  tup<N> hi;
-  for (std::size_t i = 0; i < N; ++i) hi[i] = gsize[i] + 4;
-  constexpr std::size_t mx = std::numeric_limits<std::size_t>::max();
-  for_box<N>(fill_tup<N>(0), hi, [&](tup<N> const &c) {
-    pos p = mkvec<pos>(c);
-    for (std::size_t i = 0; i < N; ++i)
-      if (c[i] > gsize[i] + 2) p.get_unsafe(i) = mx - static_cast<std::size_t>(gsize[i] + 4 - c[i]);
+  std::vector<ll> some, val, somec, valc;
+  for_probes<N>(gsize, [&](pos const &p) {
     if (!some.empty()) ps += ',';
     ps += jv<N>(p);
     fcppt::optional::reference<int> const r = grid::at_optional(gr, p);
@@ -396,12 +425,9 @@ void op_at(tup<N> const &gsize, gen_t<N> const &g)
     fcppt::optional::reference<int const> const rc = grid::at_optional(cgr, p);
     somec.push_back(rc.has_value() ? 1 : 0);
     valc.push_back(fcppt::optional::maybe(rc, [] { return 0; }, [](fcppt::reference<int const> const x) { return x.get(); }));
-    inr.push_back(grid::in_range(cgr, p) ? 1 : 0);
-    ird.push_back(grid::in_range_dim(cgr.size(), p) ? 1 : 0);
   });
   ps += "]";
-  vj::end_call(",\"ps\":" + ps + ",\"some\":" + jl(some) + ",\"val\":" + jl(val) + ",\"somec\":" + jl(somec) + ",\"valc\":" + jl(valc) +
-               ",\"inr\":" + jl(inr) + ",\"ird\":" + jl(ird) + "}");
+  vj::end_call(",\"ps\":" + ps + ",\"some\":" + jl(some) + ",\"val\":" + jl(val) + ",\"somec\":" + jl(somec) + ",\"valc\":" + jl(valc) + "}");
 }
 
 // ------------------------------------------------------------------ constructors
@@ -584,6 +610,7 @@ void record_n(int maxe, int maxc)
     op_construct<N>(size, g1, "fn");
     op_construct<N>(size, g3, "fn");
     op_construct<N>(size, std_gen<N>(42, 0, 0, 0), "value");
+    op_in_range<N>(size, g1);
     op_at<N>(size, g1);
     for (int c = 0; c < 2; ++c)
     {
@@ -659,6 +686,8 @@ void replay_n(vj::V const &v)
   }
   else if (f == "at")
     op_at<N>(get_tup<N>(v, "gsize"), get_gen<N>(v, "gen"));
+  else if (f == "in_range")
+    op_in_range<N>(get_tup<N>(v, "gsize"), get_gen<N>(v, "gen"));
   else if (f == "construct")
     op_construct<N>(get_tup<N>(v, "size"), get_gen<N>(v, "gen"), v.str("kind"));
   else if (f == "resize")
